@@ -4,6 +4,7 @@ package main
 
 import (
 	"fmt"
+	"regexp"
 	"go/constant"
 	"go/types"
 	"math/big"
@@ -100,6 +101,15 @@ type evalCtx struct {
 	old   *State
 	bound []map[string]Term
 	lets  map[string]Expr
+	cells map[string]*Loc // names bound to memory cells (captured variables of closures): read in the current state
+	ft    *funcTrans
+}
+
+func (c *evalCtx) readCell(l *Loc) Term {
+	if c.ft == nil {
+		c.fail("cell-bound name outside a function context")
+	}
+	return c.ft.readLoc(c.st, l)
 }
 
 func (c *evalCtx) withState(st *State) *evalCtx {
@@ -353,6 +363,8 @@ func (c *evalCtx) eval(e Expr) Term {
 	return Term{}
 }
 
+var rawArrayRe = regexp.MustCompile(`^\(Array (\S+) (.+)\)$`)
+
 func ratLit(r *big.Rat) string {
 	neg := r.Sign() < 0
 	a := new(big.Rat).Abs(r)
@@ -383,6 +395,14 @@ func (c *evalCtx) ident(name string) Term {
 	}
 	if e, ok := c.lets[name]; ok {
 		return c.eval(e)
+	}
+	if l, ok := c.cells[name]; ok {
+		return c.readCell(l)
+	}
+	if g, ok := w.P.Spec.Ghosts[name]; ok {
+		h := "G_ghost." + name
+		w.heapSorts[h] = g
+		return Term{w.heapSym(c.st, h), &Sort{Name: g, Kind: KOther}}
 	}
 	switch name {
 	case "true":
@@ -418,6 +438,9 @@ func (c *evalCtx) object(o types.Object) Term {
 	case *types.Const:
 		return w.constTerm(ob.Val(), ob.Type())
 	case *types.Var:
+		if ob.Pkg() != nil && isSentinelError(ob.Pkg().Path(), ob.Name(), ob.Type()) {
+			return w.sentinelTerm(ob.Pkg().Path(), ob.Name())
+		}
 		s := w.sortOf(ob.Type())
 		h := w.globalHeap(ob.Pkg(), ob.Name(), s)
 		return Term{w.heapSym(c.st, h), s}
@@ -776,6 +799,11 @@ func (c *evalCtx) index(base, idx Term) Term {
 		i := w.toIdx(c.concrete(idx))
 		return Term{fmt.Sprintf("(select %s %s)", base.S, i), base.Sort.Elem}
 	case KOther:
+		if m := rawArrayRe.FindStringSubmatch(base.Sort.Name); m != nil && !strings.HasPrefix(base.Sort.Name, "(Array "+w.idxSortName()+" ") {
+			ks := c.specSort(m[1])
+			k := c.coerce(idx, ks)
+			return Term{fmt.Sprintf("(select %s %s)", base.S, k.S), c.specSort(m[2])}
+		}
 		// raw SMT array (from arr(s) or a spec function)
 		pre := "(Array " + w.idxSortName() + " "
 		if strings.HasPrefix(base.Sort.Name, pre) {
@@ -939,6 +967,18 @@ func (c *evalCtx) call(x *ECall) Term {
 			c.fail("heapof: not a struct field: %s", fe.String())
 		}
 		return Term{w.heapSym(c.st, h), &Sort{Name: w.heapSorts[h], Kind: KOther}}
+	case "deref":
+		// deref(p): value of the scalar cell p points to
+		a := c.eval(x.Args[0])
+		pt, ok := a.Sort.Go.Underlying().(*types.Pointer)
+		if !ok {
+			c.fail("deref of non-pointer")
+		}
+		es := w.sortOf(pt.Elem())
+		if es.Kind == KStruct || es.Kind == KArray {
+			c.fail("deref of pointer to aggregate")
+		}
+		return Term{fmt.Sprintf("(select %s %s)", w.heapSym(c.st, w.cellHeap(es)), a.S), es}
 	case "asptr":
 		// asptr(e, "*T"): the pointer stored in interface value e (meaningful when istype(e, "*T"))
 		a := c.eval(x.Args[0])
